@@ -108,7 +108,8 @@ class Actor(object):
         from pgpy.constants import KeyFlags, HashAlgorithm
         pg = self.pgpy
         self.nuid += 1
-        text = text or 'Key%d User%d' % (self.idx, self.nuid)
+        # names of one key are nested: each is a proper prefix (and so a substring) of the next ones, and so are the e-mail addresses
+        text = text or ('Key%d User%d' % (self.idx, self.nuid) if self.nuid == 1 else 'Key%d User1%s' % (self.idx, 'x' * (self.nuid - 1)))
         flags = FLAGS[self.nuid % len(FLAGS)] if not first else ['Certify', 'Sign']
         hashes = [['SHA256'], ['SHA512', 'SHA256'], ['SHA384']][self.nuid % 3]
         primary = [None, True, False][self.nuid % 3]
@@ -120,7 +121,9 @@ class Actor(object):
         if kexp:
             kw['key_expiration'] = timedelta(seconds=kexp)
         with self.unlocked():
-            self.k.add_uid(pg.PGPUID.new(text, email='u%d@k%d.example' % (self.nuid, self.idx)), **kw)
+            # the comment of every identity quotes the names and addresses of all the others: only an exact match of a whole field selects an identity
+            aka = 'aka ' + ', '.join('Key%d User1%s %su1@k%d.example' % (self.idx, 'x' * j, 'x' * j, self.idx) for j in range(6))
+            self.k.add_uid(pg.PGPUID.new(text, comment=aka, email='%su1@k%d.example' % ('x' * (self.nuid - 1), self.idx)), **kw)
         self.m.uids[text] = {'sigs': [self.rec(flags, hashes, primary, kexp, created)], 'revoked': False}
 
     def uid_obj(self, text):
@@ -210,8 +213,9 @@ class Actor(object):
             elif op == 'del_uid':
                 if len(live) < 2:
                     return False
-                t = live[-1]
-                k.del_uid(t)
+                # any of the identities, named the way a caller would name it (names and addresses of one key are nested strings)
+                t = pick(live)
+                k.del_uid(t if (m.clock // 60) % 3 else next(u.email for u in k.userids if u.name == t))
                 del m.uids[t]
                 m.removed.append(t)
             elif op == 'protect':
@@ -286,8 +290,9 @@ def check_actor(ctx, a, where):
             if not any(gotrec['flags'] == s['flags'] and gotrec['hashes'] == s['hashes'] and gotrec['primary'] == bool(s['primary']) and gotrec['kexp'] == s['kexp'] for s in alts):
                 ctx.fail('effective-parameters-not-those-of-most-recent-self-signature', dict(where, form=form, uid=t, got=gotrec, expected={k_: v for k_, v in last.items() if k_ != 'created'},
                                                                                                n_selfsigs=len(mu['sigs'])))
+        exported_names = {p_.body.split(b' <')[0].split(b' (')[0] for p_ in wire.split(blob) if p_.tag == 13}
         for t in m.removed:
-            if t.encode() in blob:
+            if t.encode() in exported_names:
                 ctx.fail('removed-identity-still-exported', dict(where, form=form, uid=t))
         # (3b) direct-key self-signatures (designated revokers among them, sensitive or not) all arrive
         mine = str(pk.fingerprint)[-16:]
